@@ -297,3 +297,23 @@ Example resubmitted_group_unsatisfied :
   /\ option_map (fun o => (o_res (fst o), option_map v_sat (vget (snd o) 1), sv_recs (snd o))) (nth_error l 17)
      = Some (res_wait, Some false, [([1], false); ([1; 2], false)]).
 Proof. vm_compute. repeat split. Qed.
+
+(* no bind, no satisfied record: along a history without PostBind and without node-carrying pod events,
+   no GangGroupInfo object (in the map or private) is once-satisfied *)
+Definition bindsb (o : op) : bool :=
+  match o with PostBind _ | PodAdd _ true | PodUpdate _ true _ => true | _ => false end.
+
+Lemma bindsb_spec o : binds o -> bindsb o = true.
+Proof. intros [[p ->]|[[p ->]|[p [t ->]]]]; reflexivity. Qed.
+
+Theorem no_bind_no_satisfied h : forall ops s,
+  (forall r, sat_at s r = false) -> forallb (fun o => negb (bindsb o)) ops = true ->
+  forall r, sat_at (exec h s ops) r = false.
+Proof.
+  induction ops as [|o ops IH]; intros s Hs Hb r; [apply Hs|].
+  cbn [forallb] in Hb. apply andb_true_iff in Hb. destruct Hb as [Ho Hb].
+  unfold exec. cbn [fold_left]. apply (IH (fst (step h s o))); [|exact Hb].
+  intros r'. destruct (sat_at (fst (step h s o)) r') eqn:E; [|reflexivity].
+  destruct (once_satisfied_only_by_bind h s o r') as [_ H2].
+  specialize (H2 (Hs r') E). apply bindsb_spec in H2. rewrite H2 in Ho. discriminate.
+Qed.
